@@ -38,6 +38,7 @@ func init() {
 
 func c12R1(e *Engine) {
 	n := 0
+	floatFields := 0
 	// (a) struct fields of floating type in the object layer
 	for _, name := range e.Pkgs["lang"].Types.Scope().Names() {
 		tn, ok := e.Pkgs["lang"].Types.Scope().Lookup(name).(*types.TypeName)
@@ -60,6 +61,7 @@ func c12R1(e *Engine) {
 			}
 			if lossy {
 				n++
+				floatFields++
 				e.fail("R1", "type:lang."+name+"."+f.Name(), e.pos(f.Pos()), "number objects are held in %s: a DynamoDB number (38 significant decimal digits) does not fit a binary double – 9007199254740993 equals 9007199254740992, 0.1+0.2 is not 0.3", typeName(ft))
 			}
 		}
@@ -82,6 +84,8 @@ func c12R1(e *Engine) {
 					note("ParseFloat", in)
 				case "strconv.FormatFloat":
 					note("FormatFloat", in)
+				case "math.Round", "math.Floor", "math.Ceil", "math.Trunc", "math.Pow", "math.Mod", "math.RoundToEven":
+					note("float-rounding", in)
 				case "strconv.Atoi", "strconv.ParseInt":
 					// only when fed by an attribute numeral
 					for _, o := range e.origins(x.Call.Args[0]) {
@@ -121,6 +125,14 @@ func c12R1(e *Engine) {
 		sort.Strings(kinds)
 		for _, k := range kinds {
 			n++
+			// arithmetic, comparison and set membership on values that already ARE float64 are consequences of the
+			// representation (the type findings above), wherever a refactoring puts them; they are listed, not findings
+			// of their own. The conversions between numeral text and binary floating point are the boundary and are.
+			consequence := k == "float-arithmetic" || k == "float-comparison" || k == "float-keyed-membership"
+			if consequence && floatFields > 0 && e.fnRole(fn) == "lang" {
+				e.ob("R1", fmt.Sprintf("%s:%s", e.fname(fn), k), firstPos[k], Pass, false, "%d site(s) of %s on float64 number objects: a consequence of the representation reported as type:lang.Number.Value / NumberSet.Value", counts[k], k)
+				continue
+			}
 			e.fail("R1", fmt.Sprintf("%s:%s×%d", e.fname(fn), k, counts[k]), firstPos[k], "%d site(s) of %s on the number path: values are computed in binary floating point instead of exact decimals", counts[k], k)
 		}
 	}
